@@ -146,7 +146,7 @@ func TestVerif_C03(t *testing.T) {
 	run := verifkit.Start(t, "C03", "collect")
 	defer run.Finish()
 	defer e1TuneRuntime(run)()
-	run.Rule("seeded timing histories on the real collector (1–3 workers; SendTicker/SendDelay/TraceTimeout from 8 combinations incl. zero defaults and off-grid values; SpanLimit 0/2/4; MaxExpiredTraces 0/1/3): roots and children added on, 1ns before and 1ns after model deadlines and ticks, root after the timeout, root after the span limit, equal deadlines, backlogs of 3×MaxExpiredTraces+1 on one worker, ejections; a third each dry-run, keep-everything and keep/drop-by-field; non-trivial = at least two of {clock landed exactly on a deadline, backlog beyond MaxExpiredTraces, root after its trace timed out, span limit exceeded, deadline tie, deadline passed while the worker sat idle in its select since before the deadline}; distinct = configuration class × feature set")
+	run.Rule("seeded timing histories on the real collector (1–3 workers; SendTicker/SendDelay/TraceTimeout from 8 combinations incl. zero defaults and off-grid values; SpanLimit 0/2/4 and 2^32, 2^40, 2^32+3 (never exceeded; traces get more spans than the low 32 bits); MaxExpiredTraces 0/1/3): roots and children added on, 1ns before and 1ns after model deadlines and ticks, root after the timeout, root after the span limit, equal deadlines, backlogs of 3×MaxExpiredTraces+1 on one worker, ejections; a third each dry-run, keep-everything and keep/drop-by-field; non-trivial = at least two of {clock landed exactly on a deadline, backlog beyond MaxExpiredTraces, root after its trace timed out, span limit exceeded, deadline tie, deadline passed while the worker sat idle in its select since before the deadline}; distinct = configuration class × feature set")
 	run.Assume("decision instant = virtual time of the E1 step in which the trace's buffered spans reach the recorder (dry-run / keep-everything) or the trace_send_dropped counter moves (keep/drop histories, MaxExpiredTraces unlimited there)")
 	run.Assume("trace-to-worker assignment is read from the collector (getWorkerIDForTrace); equal-deadline order inside one tick is unspecified and any order is accepted")
 
@@ -154,7 +154,9 @@ func TestVerif_C03(t *testing.T) {
 		cb := c03Combos[rng.Intn(len(c03Combos))]
 		mode := verifkit.Pick(rng, "dry", "allkeep", "keepdrop")
 		workers := rng.Range(1, 3)
-		spanLimit := verifkit.Pick(rng, 0, 0, 2, 4)
+		// SpanLimit is a uint setting: values at and above 2^32 must behave like "practically unlimited"
+		spanLimit := verifkit.Pick(rng, 0, 0, 2, 4, 0, 2, 4, 1<<32, 1<<40, 1<<32+3)
+		hugeLimit := spanLimit >= 1<<32
 		maxExp := verifkit.Pick(rng, 0, 1, 3)
 		if mode == "keepdrop" {
 			maxExp = 0
@@ -311,8 +313,12 @@ func TestVerif_C03(t *testing.T) {
 							for _, ev := range byTrace[tr.ID] {
 								got, _ := ev.Fields["meta.refinery.send_reason"].(string)
 								if got != want {
-									violate("C03/send-reason/"+c03Short(want)+"-reported-as-"+c03Short(got), fmt.Sprintf("trace has root=%v, %d spans, SpanLimit=%d: send reason %q, expected %q", tr.HasRoot, tr.Count, m.spanLimit, got, want), wit(tr, nil, decided, evs))
-									return
+									sig := "C03/send-reason/" + c03Short(want) + "-reported-as-" + c03Short(got)
+									if hugeLimit {
+										sig += "/span-limit-above-32-bits"
+									}
+									run.Violation(sig, fmt.Sprintf("trace has root=%v, %d spans, SpanLimit=%d: send reason %q, expected %q", tr.HasRoot, tr.Count, m.spanLimit, got, want), wit(tr, nil, decided, evs))
+									break // a wrong label does not make the model diverge: keep evaluating this history
 								}
 							}
 							if tr.SendBy == tickAt {
@@ -483,7 +489,13 @@ func TestVerif_C03(t *testing.T) {
 				if x := m.traces[id]; x != nil {
 					have = x.Count
 				}
-				for j := have; j <= spanLimit && !broken; j++ {
+				target := spanLimit
+				if hugeLimit {
+					// cannot be exceeded; give the trace more spans than the limit's low 32 bits instead
+					target = spanLimit&0xffffffff + 1
+					feat["huge-span-limit-residue-exceeded"] = true
+				}
+				for j := have; j <= target && !broken; j++ {
 					add(mk(id, "child", keep), keep)
 				}
 			case k < 95:
@@ -549,7 +561,7 @@ func TestVerif_C03(t *testing.T) {
 		}
 		sort.Strings(feats)
 		nt := 0
-		for _, k := range []string{"exact", "backlog", "root-after-timeout", "span-limit", "tie", "root-after-span-limit", "slept-through-deadline"} {
+		for _, k := range []string{"exact", "backlog", "root-after-timeout", "span-limit", "tie", "root-after-span-limit", "slept-through-deadline", "huge-span-limit-residue-exceeded"} {
 			if feat[k] {
 				nt++
 			}
